@@ -268,6 +268,50 @@ func runC03(c *Ctx) {
 			r.Violate("operand-symmetry", key, p.Pos(s.pos), "left operand parsed by "+strings.Join(lp, "/")+" but right operand by "+strings.Join(rp, "/")+": the right side of this operator is parsed at a tighter level (e.g. `a = b + 1` is rejected or mis-grouped)")
 		}
 	}
+	// unary operators: one precedence level for the operand, whatever the next token is
+	r.Rule("unary-operand", "the operand of a unary node (NOT, unary minus/plus, …) is parsed by one function of the precedence chain: a choice between two levels that depends on the next token makes `NOT (a) > b` group differently from `NOT a > b`")
+	nu := 0
+	useq := map[string]int{}
+	for _, fn := range p.SrcFuncs("pkg/sql/parser") {
+		for _, b := range fn.Blocks {
+			for _, in := range b.Instrs {
+				a, ok := in.(*ssa.Alloc)
+				if !ok {
+					continue
+				}
+				if n := core.NamedOf(a.Type()); n == nil || n.Obj().Name() != "UnaryExpression" {
+					continue
+				}
+				srcs := map[string]bool{}
+				for _, ref := range core.Referrers(a) {
+					fa, ok := ref.(*ssa.FieldAddr)
+					if !ok || core.FieldName(fa.X.Type(), fa.Field) != "Expr" {
+						continue
+					}
+					for _, r2 := range core.Referrers(fa) {
+						if st, ok := r2.(*ssa.Store); ok && st.Addr == ssa.Value(fa) {
+							operandCallees(st.Val, 0, srcs)
+						}
+					}
+				}
+				var levels []string
+				for _, k := range setKeys(srcs) {
+					if _, onChain := order[k]; onChain {
+						levels = append(levels, k)
+					}
+				}
+				nu++
+				useq[fn.Name()]++
+				key := fn.Name() + sprintf("|unary#%d", useq[fn.Name()])
+				if len(levels) <= 1 {
+					r.OK("unary-operand", key, p.Pos(a.Pos()), "operand via "+strings.Join(setKeys(srcs), "/"))
+				} else {
+					r.Violate("unary-operand", key, p.Pos(a.Pos()), "the operand is parsed by "+strings.Join(levels, " or ")+" depending on the input: the unary operator binds at two different precedence levels")
+				}
+			}
+		}
+	}
+	r.Floor("unary-operand", nu, 1, "UnaryExpression construction sites")
 }
 
 // collectTokenTests gathers token type names tested positively in cond (isType(X), isAnyType(...), currentToken.Type == X).
